@@ -478,9 +478,10 @@ UsrStep(t) ==
               /\ SetTop(t, [fr EXCEPT !.pos = fr.pos + 1, !.pc = "run"])
               /\ reg' = [reg EXCEPT ![t] = NoOut] /\ Silent /\ Unch_ip /\ Unch_misc
          [] op.when \in {0, fr.a} /\ op.op = "call" ->
-              /\ PushOn(t, nfr, Frame("call", "", op.f, op.o, op.a, 0, ""))
+              \* op.o = -1: the instance this user code was called with ("self")
+              /\ PushOn(t, nfr, Frame("call", "", op.f, IF op.o = -1 THEN fr.o ELSE op.o, op.a, 0, ""))
               /\ reg' = [reg EXCEPT ![t] = NoOut]
-              /\ Emit(Ev("call", t, op.f, op.o, op.a, 0, "", <<>>, 0, fr.u, FALSE))
+              /\ Emit(Ev("call", t, op.f, IF op.o = -1 THEN fr.o ELSE op.o, op.a, 0, "", <<>>, 0, fr.u, FALSE))
               /\ Unch_ip /\ Unch_misc
          [] op.when \in {0, fr.a} /\ op.op = "await" ->
               /\ SetTop(t, [nfr EXCEPT !.pc = IF prog.fault.at = -1 /\ prog.fault.n = ns + 1 THEN "susp!" ELSE "run"])
